@@ -644,8 +644,8 @@ static void finalize(const Plan &plan, EndReason r) {
 
             if (sc->eof_errno && !x->ignore_delivery && !plan.P("variant") && x->peer && x->peer->closed_after_flush) {
                 // the peer closed gracefully after everything was delivered, yet the close is reported as an error
-                if (x->peer && x->peer->close_truncated && sc->eof_errno == EPROTO)
-                    G->violation("C06.tls_close_notify_truncated", "%s: peer's xcm_close could not write its whole TLS close_notify (socket buffer full); the close is reported as EPROTO instead of 0", sc->who.c_str());
+                if (x->peer && x->peer->close_truncated && (sc->eof_errno == EPROTO || sc->eof_errno == ECONNRESET))
+                    G->violation("C06.tls_close_notify_truncated", "%s: peer's xcm_close could not write its whole TLS close_notify (socket buffer full); the close is reported as %s instead of 0", sc->who.c_str(), strerror(sc->eof_errno));
                 else
                     G->violation("C06.orderly_close_errno", "%s: peer closed gracefully after all data was delivered, but xcm_receive reported %s instead of 0", sc->who.c_str(), strerror(sc->eof_errno));
             }
